@@ -152,8 +152,13 @@ def c03_c04(case: Case):
     for t in truths:
         owner, name = expected_location(t)
         known.add((relocate(owner), name, STUB_KIND[t["kind"]]))
+    # classes of other libraries that the package derives from get a placeholder stub (C10, C11): not declarations of the package
+    foreign_bases = {(mod, nm) for m_ in case.pkg.modules for c_ in _all_classes(m_) for nm, mod, _p in c_.base_refs
+                     if mod.split(".")[0] != case.pkg.name}
     for (own, name, kind), hits in idx.items():
         if kind == "member":
+            continue
+        if kind == "class" and (own, name) in foreign_bases:
             continue
         if (own, name, kind) not in known and not _is_inlined(case, own, name, kind):
             finding = "class_attribute_list_items_by_name" if own == "typing" else None
